@@ -2,7 +2,7 @@
 (* Narrow class predicates for recorded, unrepaired defects (known_findings.json).  They are used
    only to attribute randomly generated instances of a *listed* defect; a failing case outside every
    listed class is reported as a VIOLATION.  Ideally empty. *)
-EXTENDS Render, Props
+EXTENDS Props
 
 \* the specification's own rendering equals the observed result (items with tags on the rich lines
 \* route, plain cells otherwise)
@@ -46,8 +46,20 @@ KF_C15(c) ==
      /\ ModelAgrees(c, c.runs[1]) /\ ModelAgrees(c, c.runs[2])
   THEN "pad-blank-line" ELSE ""
 
+\* C08 "decorated-empty-link": with do_decorate() (config::plain()), the "*" / "**" / "`" pseudo-content
+\* of an *empty* em / strong / code / dt inside a link counts as link text, so a link without any
+\* content of its own is still rendered ("[**][1]") and footnoted.  Class: some textless a[href] of
+\* the document contains such an element, decoration is on, and the output is what the recorded
+\* algorithm (Tree!ToRender wrap_nodes + DeepEmpty) predicts.
+KF_C08(c) ==
+  IF \A i \in 1..Len(c.runs) :
+       LET run == c.runs[i] IN
+       DecoratedEmptyLink(Dom1(c, run), Cf(run.cfg)) /\ ModelAgrees(c, run)
+  THEN "decorated-empty-link" ELSE ""
+
 KFClass(prop, c) ==
   CASE prop = "C12" -> KF_C12(c)
+    [] prop = "C08" -> KF_C08(c)
     [] prop = "C15" -> KF_C15(c)
     [] prop = "C13" -> KF_C13(c)
     [] OTHER -> ""
